@@ -342,3 +342,48 @@ func ruleRestoreDeletesStreamsMissingFromSnapshot(c *eng.Ctx) {
 	c.Check(ok && len(rs) > 0, "the reset for a restore deletes the streams the snapshot lacks", p.Pos(fn.Pos()), "for each existing stream not among the snapshot's: deleteStreamData(stream); then reset()", "ResetForRestore does not delete exactly the streams that are missing from the snapshot before it resets the store")
 	c.WhoMayCall("deleteStreamData", []string{"server.metadataAPI.deleteStreamData"}, []string{"server.(*metadataAPI).deleteStream", "server.(*metadataAPI).ResetForRestore"}, []string{"server.(*metadataAPI).deleteStream", "server.(*metadataAPI).ResetForRestore"})
 }
+
+// ruleCursorScanCoversAcknowledgedTail (R11.8, known finding K15): a cursor is acknowledged under ALL once every in-sync
+// replica stores it; a follower learns the leader's high watermark one replication round trip later. The server that takes
+// over therefore holds acknowledged cursors ABOVE its own watermark until the in-sync set (which still contains the dead
+// leader) has caught up or shrunk. A fetch that scans committed data only has to relate the watermark it scans below to
+// the end the log had when leadership was taken — wait for it, or look above it. The rule asks for that relation: a
+// comparison of the HighWatermark() answer with something other than a constant on the fetch path.
+func ruleCursorScanCoversAcknowledgedTail(c *eng.Ctx) {
+	fn := c.Fn("server.(*cursorManager).getLatestCursorOffset")
+	if fn == nil {
+		return
+	}
+	hw := eng.Call(-1, "server/commitlog.CommitLog.HighWatermark", "server/commitlog.commitLog.HighWatermark")
+	seen, related := false, false
+	check := func(f *ssa.Function) {
+		eng.Instrs(f, func(in ssa.Instruction) {
+			bo, isBo := in.(*ssa.BinOp)
+			if !isBo {
+				return
+			}
+			switch bo.Op {
+			case token.EQL, token.NEQ, token.LSS, token.LEQ, token.GTR, token.GEQ:
+			default:
+				return
+			}
+			for _, pr := range [][2]ssa.Value{{bo.X, bo.Y}, {bo.Y, bo.X}} {
+				if hw(pr[0]) {
+					seen = true
+					if !eng.IsConst(eng.Strip(pr[1])) {
+						related = true
+					}
+				}
+			}
+		})
+	}
+	check(fn)
+	for _, a := range fn.AnonFuncs {
+		check(a)
+	}
+	if !seen {
+		c.Unresolved("the test of partition.log.HighWatermark() in getLatestCursorOffset")
+		return
+	}
+	c.Check(related, "a fetch on a new leader covers the cursors acknowledged above its trailing watermark", c.P.Pos(fn.Pos()), "the watermark the scan stays below is compared with the end the log had when this server became the leader", "getLatestCursorOffset scans committed data below partition.log.HighWatermark() and compares that watermark with constants only")
+}
